@@ -279,7 +279,7 @@ v("c24-twin-intersect-loop-var", "C24", "OrderedSet.py",
 v("c25-key-drops-sql", "C25", "eval_cache.py", "        sql=sql,\n        dat_map_list", "        sql=\"\",\n        dat_map_list")
 v("c25-hash-head-only", "C25", "eval_cache.py", "        .pd.util.hash_pandas_object(d)\n", "        .pd.util.hash_pandas_object(d.head(100))\n")
 v("c25-hash-no-index", "C25", "eval_cache.py", "        .pd.util.hash_pandas_object(d)\n", "        .pd.util.hash_pandas_object(d, index=False)\n")
-v("c25-hash-drops-columns", "C25", "eval_cache.py", "    return f\"{d.shape}_{list(d.columns)}_{hash_str}\"", "    return f\"{d.shape}_{hash_str}\"")
+v("c25-hash-drops-columns", "C25", "eval_cache.py", "    return f\"{d.shape}_{list(d.columns)}_{hash_str}_{type_str}\"", "    return f\"{d.shape}_{hash_str}_{type_str}\"")
 v("c25-get-no-copy", "C25", "eval_cache.py", "        return res.copy()", "        return res")
 v("c25-store-no-copy", "C25", "eval_cache.py", "        self.result_cache[op_key] = res.copy()", "        self.result_cache[op_key] = res")
 v("c25-key-first-table-only", "C25", "eval_cache.py",
